@@ -46,7 +46,7 @@ PROPS = {
     },
     "C09": {
         "units": ["U9_crc", "U10_zipcrypto", "U11_aes", "U8_entry_readers", "U7a_writer_leaves", "U7_writer"],
-        "kani": [],
+        "kani": ["zipcrypto", "aes_ctr"],
         "technique": "Verus stream-transformer contracts (state is a function of the bytes consumed) under an I/O model that quantifies over every short-read/short-write schedule",
         "level_text": "Deductive proof that each reader layer advances its state by exactly the count the inner reader returned, whatever that count is: Crc32Reader hashes exactly the returned bytes; ZipCryptoReaderValid decrypts exactly the n bytes read and leaves the keys where n bytes put them (the repaired short-read defect, pinned by a named clause); AesReaderValid advances data_remaining, the HMAC view and the CTR key-stream offset by exactly n, with chunk-independence lemmas for the key stream and for composed reads; after end-of-data further reads return Ok(0) without effect; the raw Take path passes the device bytes through unchanged. On the write side ZipCryptoWriter buffers exactly what it accepts and ZipWriterStats accounts exactly the slice it is given; header writers only use all-or-error primitives.",
         "level_note": "compressors/decompressors assumed chunk-independent; ZipWriter::write accounts exactly the count the installed writer accepted (named clause); what is written through `ref_mut`'s `&mut dyn Write` is not tracked byte-for-byte (assumed contract, Verus has no unsizing cast) - MaybeEncrypted::write itself is proved to be the sink's own write; vstd's slice iterator specs are trusted for the iter_mut loops",
@@ -54,19 +54,19 @@ PROPS = {
     },
     "C15": {
         "units": ["U10_zipcrypto", "U8_entry_readers", "U8b_archive", "U5_header_writers"],
-        "kani": [],
+        "kani": ["zipcrypto"],
         "technique": "Verus contracts on the ZipCrypto stream functions over an abstract byte step + password/validator decisions in the open path",
         "level_text": "Deductive proof, for all passwords, contents and chunkings, that: keys are derived by absorbing the whole password; validate consumes the 12-byte header, accepts exactly when its last decrypted byte equals crc>>24 (PKZIP) or time>>8 (Info-ZIP variant, chosen exactly for data-descriptor entries); reading decrypts exactly the bytes returned; the writer emits the encryption of header (check byte crc>>24) plus buffered data, with a proved inverse lemma dec(enc(p)) == p; an encrypted entry opened without password is refused with the password-required error and a password given for a plain entry is ignored; flag bit 0 is written for encrypted entries in both headers.",
-        "level_note": "the byte step (update / stream_byte / CRC table) is an abstract function in Verus; its equality with APPNOTE 6.1 is decided by the Kani group zipcrypto once registered; 'the plaintext does not appear in the file' is a statistical statement no contract can decide; start_entry/finish_file installing the ZipCryptoWriter is unit U7",
-        "undecided": ["byte step equals APPNOTE 6.1 (Kani group zipcrypto, pending registration)", "'plaintext does not appear in the file' (statistical; not a contract matter)", "ZipWriter::start_entry/finish_file wiring of the encrypting writer (unit U7)"],
+        "level_note": "the byte step (update / stream_byte / CRC table) is an abstract function in Verus; its equality with APPNOTE 6.1 for all 2^96 key states x 256 bytes, the CRC table against the bitwise polynomial, the initial keys and decrypt(encrypt(p)) == p are decided by complete (loop-free) Kani harnesses on the real code (group zipcrypto); the check-byte decision of validate over the real byte step for all keys/headers is a complete harness run in the thorough tier only (16 min); bounded Kani stand-ins (4/8-byte buffers, 14-byte writer buffer) accompany the Verus stream contracts and are never counted as proved; 'the plaintext does not appear in the file' is a statistical statement no contract can decide; start_entry/finish_file installing the ZipCryptoWriter is proved in unit U7 (C12/C01 clauses)",
+        "undecided": ["'plaintext does not appear in the file' (statistical; not a contract matter)"],
     },
     "C16": {
         "units": ["U11_aes", "U6_central_parser", "U8_entry_readers", "U8b_archive", "U9_crc"],
-        "kani": ["types"],
+        "kani": ["types", "aes_ctr"],
         "technique": "Verus contracts on the AES reader (MAC-then-decrypt order, counters, key slicing) with the primitives uninterpreted",
         "level_text": "Deductive proof that: AesReader::new refuses an entry shorter than salt+verifier+MAC (repaired underflow); validate reads salt and verifier, slices the PBKDF2 output as cipher key | MAC key | verifier and answers wrong-password exactly when the verifiers differ; read feeds exactly the returned ciphertext bytes to the HMAC before decrypting them with the little-endian CTR key stream starting at counter 1, and at the end of the payload reads the 10-byte code and fails unless it equals the first 10 bytes of the HMAC; the AES extra field is parsed per the WinZip layout in any record order (repaired skip defect); AE-2 alone exempts the CRC; no password gives the password-required/refused result.",
-        "level_note": "AES, HMAC-SHA1, PBKDF2 are uninterpreted functions: 'any change is detected' holds relative to them; xor() and cipher_from_mode are assumed contracts (iterator zip / Box<dyn>), the former to be covered by Kani; an entry with zero payload bytes is never MAC-checked (stated by the contract; the property exempts empty entries)",
-        "undecided": ["xor(): dest[i] ^= src[i] (assumed in Verus; Kani harness pending)"],
+        "level_note": "AES, HMAC-SHA1, PBKDF2 are uninterpreted functions: 'any change is detected' holds relative to them; cipher_from_mode is an assumed contract (Box<dyn>); xor() is an assumed contract in Verus (iterator zip) decided by a complete Kani harness on the real code for every length the call site can pass (<= 16, a precondition Verus proves there); an entry with zero payload bytes is never MAC-checked (stated by the contract; the property exempts empty entries)",
+        "undecided": [],
     },
     "C01": {
         "units": ["U4_end_records", "U5_header_writers", "U6_central_parser", "U7_writer", "U7a_writer_leaves", "U7b_append_copy", "U8_entry_readers", "U8b_archive", "U9_crc"],
